@@ -246,3 +246,4 @@ func VH_C16_loop(remove int) {
 	vquiesce()
 	vreach("end")
 }
+
